@@ -21,7 +21,8 @@ def model_check(ctx):
     """IeeeEncode (transcription of base/src/bit.rs) against Ieee!RoundNE.  The Fix* constants follow the
     status of the findings: an open finding = the pinned code (its input class is excused in the invariant),
     a fixed finding = the repaired code (no excuse)."""
-    base = {"FixSticky": tla_bool(not is_open(ctx, "F60")), "FixUnderflow": tla_bool(not is_open(ctx, "F61"))}
+    base = {"FixSticky": tla_bool(not is_open(ctx, "F60")), "FixUnderflow": tla_bool(not is_open(ctx, "F61")),
+            "FixShift": tla_bool(not is_open(ctx, "F62"))}
     mini = {"CB": 8, "M": 4, "EminNeg": 6, "Emax": 7, "Scope": '"mini"', "ELo": -22, "EHi": 12}
     f32 = {"CB": 32, "M": 24, "EminNeg": 126, "Emax": 127, "Style": '"f32"', "Scope": '"fam"'}
     f64 = {"CB": 64, "M": 53, "EminNeg": 1022, "Emax": 1023, "Style": '"f64"', "Scope": '"fam"'}
@@ -42,7 +43,8 @@ def model_check(ctx):
         r = ctx.mc("mc-" + name, SPECDIR, "IeeeEncode.tla", cfg, timeout=1500)
         for cov in r.tagged("COVER"):
             seen.update(cov)
-    missing = [b for b in BRANCHES if b not in seen]
+    # (the panicking shift branch exists only in the unrepaired code)
+    missing = [b for b in BRANCHES if b not in seen and not (b == "subpanic" and not is_open(ctx, "F62"))]
     if missing:
         raise fw.ToolError("vacuity: encode branches never reached by the model scope: %s" % missing)
     ctx.scope["encode_branches_covered"] = sorted(seen)
